@@ -1,4 +1,5 @@
 """C13 — directive hooks wrap their target exactly once, nested in declaration order."""
+import random
 import re
 from collections import Counter
 
@@ -12,7 +13,8 @@ N_CASES = {"quick": 400, "thorough": 10000}
 REQS_PER_SCHEMA = 10
 MIN_NONTRIVIAL = 50
 RULE = ("case = schema decorated with 0-3 instances of four tagging directives at every attachable location (scalar, enum, "
-        "enum value, input object, input field, argument, field, object) x %d requests supplying inputs as literals, "
+        "enum value, input object, input field, argument, field, object; part of a scalar's / enum's / input object's / object's "
+        "directives arrive through a later directive-only `extend <kind> X @d` and therefore nest inside the definition's own) x %d requests supplying inputs as literals, "
         "variables, variables nested in object/list literals, one-item lists also as the bare item; the decorated object type "
         "reached through its concrete type, an interface, a union and interface lists; with 0-2 query-side directives per field node and merged "
         "field nodes each carrying their own. Every hook (on_post_input_coercion, on_argument_execution, on_field_execution, "
@@ -143,6 +145,11 @@ class Model:
         self.echo_dirs = u()
         self.echo_args = {"x": u(), "i": u(), "c": u(), "l": u()}
         self.color_arg = u()
+        # some of a type's directives arrive through a directive-only `extend <kind> X @d` placed after the definition: they are
+        # declared later, so they nest inside the ones on the definition (drawn from a private stream: the placements above stay)
+        r2 = random.Random(rng.random())
+        self.ext_from = {k: (r2.randrange(len(d) + 1) if len(d) >= 1 and r2.random() < 0.5 else len(d))
+                         for k, d in (("Str", self.str_dirs), ("Color", self.color_dirs), ("In", self.in_dirs), ("Obj", self.obj_dirs))}
         self.s_default = rng.random() < 0.5       # `s: Str = "dflt"`: hooks must also govern the default of an omitted field
         self.seq_lists = rng.random() < 0.5       # engine cooked with coerce_list_concurrently=False
 
@@ -163,7 +170,15 @@ class Model:
         return "".join(' @%s(t: "%s")' % d for d in dirs)
 
     def sdl(self):
-        p = self.p
+        def p(dirs):
+            # directives of the four extensible types: only the part that stays on the definition
+            for k, d in (("Str", self.str_dirs), ("Color", self.color_dirs), ("In", self.in_dirs), ("Obj", self.obj_dirs)):
+                if dirs is d:
+                    return self.p(d[:self.ext_from[k]])
+            return self.p(dirs)
+        ext = ["extend %s %s%s" % (kw, k, self.p(d[self.ext_from[k]:]))
+               for kw, k, d in (("scalar", "Str", self.str_dirs), ("enum", "Color", self.color_dirs), ("input", "In", self.in_dirs),
+                                ("type", "Obj", self.obj_dirs)) if d[self.ext_from[k]:]]
         return "\n".join(
             ["directive @%s(t: String, ts: [String]) on %s" % (n, LOCS) for n in DNAMES] + [
                 "scalar Str%s" % p(self.str_dirs),
@@ -176,7 +191,7 @@ class Model:
                 "type Query { node: Node u: U nodes: [Node] echo(x: Str%s, i: In%s, c: Color%s, l: [Str]%s): Str%s echoColor(c: Color%s): Color obj: Obj strs: [Str] }" % (
                     p(self.echo_args["x"]), p(self.echo_args["i"]), p(self.echo_args["c"]), p(self.echo_args["l"]), p(self.echo_dirs),
                     p(self.color_arg)),
-            ])
+            ] + ext)
 
 
 def T(kind, dirs):
@@ -461,6 +476,10 @@ async def run_case(ctx, rng, index):
     st = ctx.stats
     m = Model(rng)
     sdl = m.sdl()
+    if "\nextend " in sdl:
+        st.inc("schemas_with_directives_arriving_through_extensions")
+        st.inc("extension_directive_instances", sum(len(d) - m.ext_from[k] for k, d in (
+            ("Str", m.str_dirs), ("Color", m.color_dirs), ("In", m.in_dirs), ("Obj", m.obj_dirs))))
     try:
         e, name = await build(m)
     except Exception as ex:  # noqa
